@@ -31,18 +31,18 @@ type Table struct {
 
 // Value is a logical cell value.  Which fields matter depends on the column.
 type Value struct {
-	Null bool        `json:",omitempty"`
-	U    uint64      `json:",omitempty"` // integer bit pattern, YEAR byte, ENUM index, SET mask, TIMESTAMP seconds, float bits
-	B    refenc.Blob `json:",omitempty"` // strings, blobs, BIT bytes, geometry
-	Dig  string      `json:",omitempty"` // DECIMAL: exactly P digits
-	Neg  bool        `json:",omitempty"` // DECIMAL / TIME sign
-	Y    int         `json:",omitempty"`
-	Mo   int         `json:",omitempty"`
-	D    int         `json:",omitempty"`
-	H    int         `json:",omitempty"`
-	Mi   int         `json:",omitempty"`
-	S    int         `json:",omitempty"`
-	Us   int         `json:",omitempty"`
+	Null bool          `json:",omitempty"`
+	U    uint64        `json:",omitempty"` // integer bit pattern, YEAR byte, ENUM index, SET mask, TIMESTAMP seconds, float bits
+	B    refenc.Blob   `json:",omitempty"` // strings, blobs, BIT bytes, geometry
+	Dig  string        `json:",omitempty"` // DECIMAL: exactly P digits
+	Neg  bool          `json:",omitempty"` // DECIMAL / TIME sign
+	Y    int           `json:",omitempty"`
+	Mo   int           `json:",omitempty"`
+	D    int           `json:",omitempty"`
+	H    int           `json:",omitempty"`
+	Mi   int           `json:",omitempty"`
+	S    int           `json:",omitempty"`
+	Us   int           `json:",omitempty"`
 	J    *refenc.JNode `json:",omitempty"`
 }
 
